@@ -264,7 +264,16 @@ def _moment_decorator(h, which):
     n = 3
     t = h.real('target')
     x = h.vec('x', n)
-    inner = h.fn('CONSTRAINTS', ret='same', log='inner')
+    returned = []
+    if h.is_sym():
+        pure = h.fn('CONSTRAINTS', ret='same', log='inner')
+
+        def wrapped(H, I, a, k):
+            returned.append(I.call(pure, list(a), dict(k)))       # remember the very object the inner function hands back
+            return returned[-1]
+        inner = h.fn('CONSTRAINTS_CALL', sym=wrapped)
+    else:
+        inner = h.fn('CONSTRAINTS', ret='same', log='inner')
     dec = h.call(h.get(K + which), t)
     f = h.call(dec, inner)
     c = h.call(h.fn('CONSTRAINTS', ret='same'), x)          # the value the inner constraints function returns for x
@@ -288,8 +297,17 @@ def _moment_decorator(h, which):
     ystat = {'with_mean': _mean('y', n), 'with_variance': _var('y', n), 'with_spread': 'max(y[0], y[1], y[2]) - min(y[0], y[1], y[2])',
              'normalized': 'y[0] + y[1] + y[2]'}[which]
     conforms = 'abs(%s - t) <= 1e-18 + 1e-7 * abs(t)' % stat
-    h.check('target-reached-exactly-or-input-already-conforming-and-returned-unchanged',
-            'len(y) == 3 and ((%s == t) or ((%s) and seq_eq(y, c)))' % (ystat, conforms), y=y, **env)
+    # the code either hands the inner result on as it is (then it must already conform) or imposes the target (then the
+    # statistic of the result is the target): which of the two happened is visible on each path, so the obligation is one
+    # plain statement per path (an equality the normal-form back end decides) instead of a disjunction
+    unchanged = (len(returned) == 1 and y is returned[0]) if h.is_sym() else None
+    if unchanged is True:
+        h.check('target-reached-exactly-or-input-already-conforming-and-returned-unchanged', 'len(y) == 3 and (%s)' % conforms, y=y, **env)
+    elif unchanged is False:
+        h.check('target-reached-exactly-or-input-already-conforming-and-returned-unchanged', 'len(y) == 3 and %s == t' % ystat, y=y, **env)
+    else:
+        h.check('target-reached-exactly-or-input-already-conforming-and-returned-unchanged',
+                'len(y) == 3 and ((%s == t) or ((%s) and seq_eq(y, c)))' % (ystat, conforms), y=y, **env)
     h.check('conforming-input-left-alone', 'implies(%s, seq_eq(y, c))' % conforms, y=y, **env)
 
 
